@@ -184,9 +184,8 @@ def run(run, ctx):
 
 
 def finalize(run, ctx):
-    q = ctx.tier == "quick"
-    for name, m in K.FLOORS_QUICK.items():
-        run.floors[name] = m if q else m * 3
+    for name, m in K.FLOORS[ctx.tier].items():
+        run.floors[name] = m
 
 
 def replay(path):
